@@ -93,10 +93,15 @@ Proof.
   unfold hooked, do_enter. pose proof (entry_check_facts c s a) as F.
   destruct (entry_check c s a) as [[[s1 v] tr] sv]. destruct F as (E & _).
   destruct (shp c) eqn:Sh.
-  - destruct v; try discriminate. intros _.
-    match goal with |- context [entry_record c s1 ?fr tr sv] =>
-      destruct (entry_record_push c s1 fr tr sv) as (top & rest & S & Q & G & A) end.
-    exists top, rest. split; [exact S|]. split; [eapply eqw_trans; eassumption|]. intros _. exact A.
+  - destruct v; try discriminate.
+    + intros _.
+      match goal with |- context [entry_record c s1 ?fr tr sv] =>
+        destruct (entry_record_push c s1 fr tr sv) as (top & rest & S & Q & G & A) end.
+      exists top, rest. split; [exact S|]. split; [eapply eqw_trans; eassumption|]. intros _. exact A.
+    + intro Hs. rewrite Hs.
+      match goal with |- context [entry_record c s1 ?fr tr sv] =>
+        destruct (entry_record_push c s1 fr tr sv) as (top & rest & S & Q & G & A) end.
+      exists top, rest. split; [exact S|]. split; [eapply eqw_trans; eassumption|]. intros _. exact A.
   - intros _. destruct v.
     + match goal with |- context [entry_record c s1 ?fr tr sv] =>
         destruct (entry_record_push c s1 fr tr sv) as (top & rest & S & Q & G & A) end.
@@ -111,7 +116,7 @@ Lemma do_enter_nopush c s a t : hooked c s a = false -> eqw (stack (do_enter c s
 Proof.
   unfold hooked, do_enter. pose proof (entry_check_facts c s a) as F.
   destruct (entry_check c s a) as [[[s1 v] tr] sv]. destruct F as (E & _).
-  destruct (shp c); [|discriminate]. destruct v; [discriminate|intros _; exact E|intros _; exact E].
+  destruct (shp c); [|discriminate]. destruct v; [discriminate|intro Hs; rewrite Hs; exact E|intros _; exact E].
 Qed.
 
 Lemma exit_record_pop c s top anc : eqw (stack (exit_record c s top anc)) anc.
@@ -208,7 +213,7 @@ End paired.
 (* the code as found: tracing switched off inside b; a was entered with tracing on and never gets its exit callback *)
 Definition sw_cfg : cfg :=
   mkcfg [(2, {| t_filter := None; t_depth := None; t_time := None; t_size := None;
-                t_trace_on := false; t_trace_off := true; t_trace := false; t_caller := false |})]
+                t_trace_on := false; t_trace_off := true; t_trace := false; t_caller := false; t_loc := None; t_finish := false |})]
         false false 1024 0 1024 [] PG.
 Definition sw_events : list ev := [Enter 1 100; Enter 2 110; Leave 120; Leave 130].
 Lemma legacy_unpaired : bal [] (cbs false sw_cfg sw_events (init, [])) = Some [2; 1] /\
